@@ -117,11 +117,12 @@ Proof.
     + destruct ((c =? r_quote) && negb esc); apply Hpre; exact Hp.
 Qed.
 
-(* re-wrapping a token the way refactor.Template does *)
+(* re-wrapping a token as it was written *)
 Definition wrap (t : toktype * text) : text :=
   match fst t with
   | BODY => snd t
-  | IDENTIFIER | EXPRESSION => wrap_expression (fst t) (snd t)
+  | IDENTIFIER => r_at :: snd t
+  | EXPRESSION => r_at :: r_lparen :: snd t ++ [r_rparen]
   | EOF_T => []
   end.
 
@@ -139,7 +140,7 @@ Proof.
   { unfold p_scan_expr. pose proof (p_expr_lossless r' MNorm 1 ltac:(lia)) as H.
     destruct (p_expr MNorm 1 r') as [[o p'] k]. destruct H as [H1 H2].
     destruct (Nat.eqb p' 0) eqn:EP.
-    - apply Nat.eqb_eq in EP. split; [discriminate|]. intros _. unfold wrap, wrap_expression. cbn [fst snd].
+    - apply Nat.eqb_eq in EP. split; [discriminate|]. intros _. unfold wrap. cbn [fst snd].
       rewrite (H1 EP). cbn [app]. rewrite <- app_assoc. reflexivity.
     - apply Nat.eqb_neq in EP. destruct (H2 EP) as [-> ->]. split; [discriminate|]. intros _.
       unfold wrap. cbn [fst snd]. rewrite app_nil_r. reflexivity. }
@@ -147,7 +148,7 @@ Proof.
   destruct (name_char d); [|exact Hbody].
   unfold p_scan_ident. pose proof (p_ident_lossless (d :: r') [] []) as H.
   destruct (p_ident isln (d :: r') [] []) as [[ident top] k]. destruct H as (idp & -> & Hw). cbn [app] in *.
-  destruct (allowed tops _); (split; [discriminate|]); intros _; unfold wrap, wrap_expression; cbn [fst snd app]; rewrite Hw; reflexivity.
+  destruct (allowed tops _); (split; [discriminate|]); intros _; unfold wrap; cbn [fst snd app]; rewrite Hw; reflexivity.
 Qed.
 
 Lemma scan_all_lossless tops : forall fuel i w toks, R i w ->
@@ -166,15 +167,116 @@ Proof.
 Qed.
 
 
-(* what refactor.Template writes when the transformation reports "unchanged": every token as it was *)
-Lemma refactor_tokens_unchanged (printable : N -> bool) : forall toks,
-  fst (fst (refactor_tokens lower printable (fun _ => None) toks)) = flat_map wrap toks.
+(* An identifier the scanner returned is read back as the same identifier: written as "@" ++ identifier and
+   followed by nothing, the scanner (any allowed list being nil) returns it in full.  This is the test
+   wrapExpression makes (isIdentifier, refactor/base.go) before it writes "@identifier" rather than "@(...)". *)
+Hypothesis isln_dot : isln r_dot = false.
+
+Lemma name_char_not_dot d : name_char d = true -> d <> r_dot.
+Proof. intros H ->. unfold is_name_char in H. rewrite isln_dot in H. discriminate. Qed.
+
+Lemma p_ident_reread : forall w buf top,
+  let '(b', _, k) := p_ident isln w buf top in
+  exists idp, b' = buf ++ idp /\ w = idp ++ k /\
+    forall top', fst (fst (p_ident isln idp buf top')) = b' /\ snd (p_ident isln idp buf top') = [].
 Proof.
-  induction toks as [|[ty tok] r IH]; [reflexivity|].
+  assert (Hstop : forall w buf (top : text), exists idp : text, buf = buf ++ idp /\ w = idp ++ w /\
+            forall top', fst (fst (p_ident isln idp buf top')) = buf /\ snd (p_ident isln idp buf top') = []).
+  { intros w buf top. exists []. rewrite app_nil_r. repeat split; reflexivity. }
+  induction w as [|c|c d r IH1 IH2] using list_ind2; intros buf top.
+  - cbn [p_ident]. apply (Hstop [] buf top).
+  - destruct (N.eqb_spec c r_dot) as [->|Hd].
+    + rewrite p_ident_dot_stop by exact I. apply (Hstop _ buf top).
+    + destruct (name_char c) eqn:EN.
+      * rewrite p_ident_name by assumption. cbn [p_ident]. exists [c]. repeat split; try reflexivity.
+        -- rewrite p_ident_name by assumption. reflexivity.
+        -- rewrite p_ident_name by assumption. reflexivity.
+      * rewrite p_ident_stop by assumption. apply (Hstop _ buf top).
+  - destruct (N.eqb_spec c r_dot) as [->|Hd].
+    + destruct (name_char d) eqn:EN.
+      * rewrite p_ident_dot_name by exact EN.
+        specialize (IH1 (buf ++ [r_dot; d]) (if text_eqb top [] then buf else top)).
+        destruct (p_ident isln r (buf ++ [r_dot; d]) _) as [[b' t'] k]. destruct IH1 as (idp & -> & -> & Hre).
+        exists (r_dot :: d :: idp). split; [rewrite <- app_assoc; reflexivity|]. split; [reflexivity|].
+        intros top'. rewrite p_ident_dot_name by exact EN. apply Hre.
+      * rewrite p_ident_dot_stop by exact EN. apply (Hstop _ buf top).
+    + destruct (name_char c) eqn:EN.
+      * rewrite p_ident_name by assumption. specialize (IH2 (buf ++ [c]) top).
+        destruct (p_ident isln (d :: r) (buf ++ [c]) top) as [[b' t'] k]. destruct IH2 as (idp & -> & Hw & Hre).
+        exists (c :: idp). split; [rewrite <- app_assoc; reflexivity|]. split; [cbn [app]; rewrite <- Hw; reflexivity|].
+        intros top'. rewrite p_ident_name by assumption. apply Hre.
+      * rewrite p_ident_stop by assumption. apply (Hstop _ buf top).
+Qed.
+
+Lemma scan_text_eqb_refl (a : text) : text_eqb a a = true.
+Proof. induction a as [|x a IH]; [reflexivity|]. cbn [text_eqb]. rewrite N.eqb_refl, IH. reflexivity. Qed.
+
+(* one Scan call: an IDENTIFIER token is read back *)
+Lemma p_scan_ident_reread tops ue w : nulfree w ->
+  let '(ty, tok, _) := p_scan isln lower tops ue w in
+  ty = IDENTIFIER -> is_identifier isln lower tok = true.
+Proof.
+  intros Hn.
+  assert (Hbody : let '(ty, tok, _) := p_scan_body isln ue w in ty = IDENTIFIER -> is_identifier isln lower tok = true).
+  { unfold p_scan_body. discriminate. }
+  destruct w as [|c r]; [cbn; discriminate|].
+  cbn [p_scan]. destruct (N.eqb_spec c r_at) as [->|Hc]; [|exact Hbody].
+  destruct r as [|d r']; [exact Hbody|].
+  destruct (d =? r_lparen) eqn:EL.
+  { unfold p_scan_expr. destruct (p_expr MNorm 1 r') as [[o p'] k]. destruct (Nat.eqb p' 0); discriminate. }
+  destruct (d =? r_at) eqn:EA; [exact Hbody|].
+  destruct (name_char d) eqn:EN; [|exact Hbody].
+  unfold p_scan_ident.
+  pose proof (name_char_not_dot d EN) as Hd.
+  rewrite p_ident_name by assumption. cbn [app].
+  pose proof (p_ident_reread r' [d] []) as HR.
+  destruct (p_ident isln r' [d] []) as [[ident top] k]. destruct HR as (idp & -> & Hw & Hre).
+  destruct (allowed tops _); [|discriminate]. intros _.
+  (* the second reading *)
+  unfold is_identifier.
+  assert (Hn2 : nulfree (r_at :: [d] ++ idp)).
+  { apply nulfree_cons in Hn. destruct Hn as [H1 Hn]. apply nulfree_cons in Hn. destruct Hn as [H2 Hn].
+    rewrite Hw in Hn. apply nulfree_app in Hn. destruct Hn as [Hn _].
+    apply nulfree_cons; split; [exact H1|]. apply nulfree_cons; split; [exact H2|exact Hn]. }
+  destruct (scan_ok isln lower None true (new_input (r_at :: [d] ++ idp))) as (ty & tk & i' & ES & _); [cbn; lia|].
+  rewrite ES.
+  pose proof (scan_ref isln lower isln_eof None true _ _ _ _ _ (R_new _ Hn2) ES) as HS.
+  cbn [app p_scan] in HS. change (r_at =? r_at) with true in HS. cbv iota in HS. rewrite EL, EA, EN in HS.
+  unfold p_scan_ident in HS. rewrite p_ident_name in HS by assumption. cbn [app] in HS.
+  destruct (Hre []) as [E1 E2].
+  destruct (p_ident isln idp [d] []) as [[b2 t2] k2]. cbn [fst snd] in E1, E2. subst b2 k2.
+  cbn [allowed] in HS. destruct HS as (-> & -> & _). cbn [app]. apply scan_text_eqb_refl.
+Qed.
+
+Definition tok_reread (t : toktype * text) : Prop := fst t = IDENTIFIER -> is_identifier isln lower (snd t) = true.
+
+Lemma scan_all_reread tops ue : forall fuel i w toks, R i w ->
+  scan_all_loop isln lower tops ue fuel i = Ok toks -> Forall tok_reread toks.
+Proof.
+  induction fuel as [|f IH]; intros i w toks HR H; [discriminate|].
+  cbn [scan_all_loop] in H.
+  destruct (scan isln lower tops ue i) as [[[ty tok] i']| |] eqn:ES; cbn [bind] in H; try discriminate.
+  pose proof (scan_ref isln lower isln_eof tops ue _ _ _ _ _ HR ES) as HS.
+  pose proof (p_scan_ident_reread tops ue w (proj1 HR)) as HI.
+  destruct (p_scan isln lower tops ue w) as [[pt pk] pr]. destruct HS as (-> & -> & HR').
+  destruct (toktype_eqb pt EOF_T) eqn:E.
+  - inversion H; subst. constructor.
+  - destruct (scan_all_loop isln lower tops ue f i') as [rest| |] eqn:EL; cbn [bind] in H; try discriminate.
+    inversion H; subst. constructor; [exact HI|exact (IH _ _ _ HR' EL)].
+Qed.
+
+(* what refactor.Template writes when the transformation reports "unchanged": every token as it was *)
+Lemma refactor_tokens_unchanged (printable : N -> bool) : forall toks, Forall tok_reread toks ->
+  fst (fst (refactor_tokens isln lower printable (fun _ => None) toks)) = flat_map wrap toks.
+Proof.
+  induction toks as [|[ty tok] r IH]; intros HF; [reflexivity|].
+  inversion HF as [|? ? Ht HF']; subst. specialize (IH HF').
   cbn [refactor_tokens flat_map].
-  destruct (refactor_tokens lower printable (fun _ => None) r) as [[out errs] inside]. cbn [fst] in IH. subst out.
+  destruct (refactor_tokens isln lower printable (fun _ => None) r) as [[out errs] inside]. cbn [fst] in IH. subst out.
+  assert (Hi : ty = IDENTIFIER -> is_identifier isln lower tok = true) by exact Ht.
   destruct ty; unfold wrap at 1; cbn [fst snd]; try reflexivity;
-    unfold refactor_expression; destruct (lex tok) as [ts| |]; try reflexivity; destruct (parse_tokens ts); reflexivity.
+    unfold refactor_expression; destruct (lex tok) as [ts| |]; try (destruct (parse_tokens ts));
+    cbn [fst wrap_expression]; try rewrite (Hi eq_refl); reflexivity.
 Qed.
 
 (* refactor.Template with a transformation that reports "unchanged": the template comes back verbatim, whatever it
@@ -186,9 +288,10 @@ Proof.
   intros Hn. unfold refactor_template. destruct s as [|c s'].
   { exists O, true. reflexivity. }
   destruct (scan_all_ok isln lower tops false (c :: s')) as (toks & HT). rewrite HT; cbn [bind].
-  pose proof (refactor_tokens_unchanged printable toks) as HU.
-  destruct (refactor_tokens lower printable (fun _ => None) toks) as [[out errs] inside]. cbn [fst] in HU.
-  exists errs, inside. rewrite HU. unfold scan_all in HT.
+  unfold scan_all in HT.
+  pose proof (refactor_tokens_unchanged printable toks (scan_all_reread tops false _ _ _ _ (R_new _ Hn) HT)) as HU.
+  destruct (refactor_tokens isln lower printable (fun _ => None) toks) as [[out errs] inside]. cbn [fst] in HU.
+  exists errs, inside. rewrite HU.
   rewrite (scan_all_lossless tops _ _ _ _ (R_new _ Hn) HT). reflexivity.
 Qed.
 
